@@ -46,6 +46,10 @@ def run(tier, seed, rep):
                 did += 1
         # more variants than small-size special cases of library routines cover (40, two of them disabled, not at the end)
         defs.append(IG.table_def(did, [1 if i in (2, 17) else 0 for i in range(40)], IG._Ids(IG.IDS))); did += 1
+        # exactly 8 / 16 / 24 enabled variants (with and without a disabled one among them), 7 and 9 next to them
+        for nen, dis in ((8, ()), (8, (3,)), (16, ()), (16, (0, 9)), (24, (5,)), (7, ()), (9, (8,))):
+            total = nen + len(dis)
+            defs.append(IG.table_def(did, [1 if i in dis else 0 for i in range(total)], IG._Ids(IG.IDS))); did += 1
         by_id = {E["id"]: E for E in defs}
         files = {}
         for E in defs:
